@@ -112,6 +112,10 @@ type c11Case struct {
 	Value   int64      `json:"acct_value,omitempty"`
 	Buckets []uint32   `json:"buckets,omitempty"`
 	Note    string     `json:"note,omitempty"`
+	// Pending (kind "validate-pending"): an honest batch proposal (generator of the C01-C03 stream). Its orders
+	// and accounts are the content of the stores, and it is accepted by the real OrderMatchValidate before the
+	// new order is validated, so the manager holds it as its pending batch.
+	Pending *bCase `json:"pending,omitempty"`
 	// Expect = "exceeds": a witness outside the property's guards for which the debit exceeds the reserve
 	// (the Lean counter-example theorems); the run only records whether the real code reproduces it.
 	Expect string `json:"expect,omitempty"`
@@ -289,6 +293,8 @@ func runC11(r *Run) {
 			runFills(c, false)
 		case "validate":
 			runValidate(c)
+		case "validate-pending":
+			c11RunValidatePending(r, c)
 		}
 	}
 	if r.ReplayFile != "" {
@@ -348,6 +354,15 @@ func runC11(r *Run) {
 	// ---- (4) validateOrder / PrepareOrder ----
 	for i := 0; i < r.N/10+20; i++ {
 		runValidate(c11GenValidate(r))
+	}
+
+	// ---- informational: beyond the premium-magnitude guard (float error no longer below half a satoshi) ----
+	c11BeyondGuard(r, r.N/20)
+
+	// ---- (4b) validateOrder on a manager that holds a pending batch ----
+	g := &bGen{rng: r.Rng, search: r.Search, prop: "C11"}
+	for i := 0; i < r.N/40+20 && len(r.Violations) < 20; i++ {
+		c11RunValidatePending(r, c11GenValidatePending(r, g, i))
 	}
 }
 
@@ -673,6 +688,23 @@ func c11RunFills(r *Run, c c11Case, fromGen bool) {
 	kind := "bid"
 	if !o.IsBid {
 		kind = "ask"
+	}
+	if c.Expect == "exceeds" && !in && !panicked && len(c.Fills) > 0 {
+		// a guard witness outside the domain (premium guard): only record whether the real code reproduces it
+		total := big.NewInt(0)
+		for _, f := range c.Fills {
+			d, err := c11Debit(o, ours, fs, c.Ver, []c11Fill{f})
+			if err != nil {
+				return
+			}
+			total.Add(total, big.NewInt(d))
+		}
+		if total.Cmp(new(big.Int).Add(big.NewInt(rv), big.NewInt(2*int64(len(c.Fills))))) > 0 {
+			r.Count("witness/guard-needed-reproduced")
+		} else {
+			r.Count("witness/guard-needed-NOT-reproduced")
+		}
+		return
 	}
 	switch {
 	case c11Archived(o.State):
@@ -1241,4 +1273,324 @@ func c11Join(b []uint32) string {
 	}
 	sort.Strings(s)
 	return strings.Join(s, "/")
+}
+
+
+// ---------------------------------------------------------------- validateOrder while a batch is pending
+
+// c11PStore is the order store of a manager that also verifies batches: GetOrder for the verifier, GetOrders for
+// validateOrder. The content is the map the batch case installs.
+type c11PStore struct {
+	*bStore
+}
+
+func (s *c11PStore) GetOrders() ([]order.Order, error) {
+	keys := make([]string, 0, len(s.orders))
+	for n := range s.orders {
+		keys = append(keys, string(n[:]))
+	}
+	sort.Strings(keys)
+	res := make([]order.Order, 0, len(keys))
+	for _, k := range keys {
+		var n order.Nonce
+		copy(n[:], k)
+		res = append(res, s.orders[n])
+	}
+	return res, nil
+}
+
+// c11FromStored describes a stored real order by the terms that enter the reserve.
+func c11FromStored(o order.Order, acct int) c11Order {
+	d := o.Details()
+	t := c11Order{IsBid: o.Type() == order.TypeBid, Auction: uint32(d.AuctionType), Version: uint32(d.Version),
+		State: uint8(d.State), Rate: d.FixedRate, Amt: int64(d.Amt), Units: uint64(d.Units),
+		Unfilled: uint64(d.UnitsUnfulfilled), MinUnits: uint64(d.MinUnitsMatch), MaxFee: int64(d.MaxBatchFeeRate),
+		Dur: d.LeaseDuration, Acct: acct}
+	if b, ok := o.(*order.Bid); ok {
+		t.Self = int64(b.SelfChanBalance)
+	}
+	return t
+}
+
+// c11PendingSession installs the batch case into fresh stores and returns a started real manager over them.
+func c11PendingSession(p *bCase) (*bSession, *c11PStore, error) {
+	bs := &bStore{orders: map[order.Nonce]order.Order{}}
+	as := &bAcctStore{accts: map[[33]byte]*account.Account{}}
+	st := &c11PStore{bStore: bs}
+	ln := test.NewMockLightning()
+	ln.NodePubkey = bKeyHex(bKeyNodeOurs)
+	mgr := order.NewManager(&order.ManagerConfig{
+		Store: st, AcctStore: as, Lightning: ln, Wallet: &bWallet{}, Signer: test.NewMockSigner(),
+		BatchVersion: order.BatchVersion(p.Env.Version),
+	})
+	if err := mgr.Start(); err != nil {
+		return nil, nil, err
+	}
+	sess := &bSession{mgr: mgr, store: bs, accts: as, version: p.Env.Version}
+	if err := p.install(sess); err != nil {
+		mgr.Stop()
+		return nil, nil, err
+	}
+	return sess, st, nil
+}
+
+// c11GenValidatePending: an honest batch proposal, a new order on the account of one of the matched orders, and
+// the balance placed around the threshold of that account's stored orders.
+func c11GenValidatePending(r *Run, g *bGen, i int) c11Case {
+	base := c11GenValidate(r)
+	c := c11Case{Kind: "validate-pending", Order: base.Order, BaseFee: base.BaseFee, FeePPM: base.FeePPM,
+		Ver: base.Ver, Buckets: base.Buckets}
+	p := g.genCase(g.pickVersion(), i)
+	for try := 0; try < 6 && len(p.Devs) > 0; try++ { // prefer proposals without a seeded deviation
+		p = g.genCase(g.pickVersion(), i)
+	}
+	c.Pending = p
+	if len(p.Env.Orders) == 0 || len(p.Env.Accounts) == 0 {
+		return c
+	}
+	// the account of a matched order
+	want := p.Env.Orders[r.Rng.Intn(len(p.Env.Orders))].AcctKey
+	for a := range p.Env.Accounts {
+		if p.Env.Accounts[a].Key == want {
+			c.Order.Acct = a
+		}
+	}
+	// threshold from the terms of the stored orders (NewKit defaults as installed by the batch case)
+	fs := terms.NewLinearFeeSchedule(btcutil.Amount(c.BaseFee), btcutil.Amount(c.FeePPM))
+	sum := int64(0)
+	if c11InDomain(c.Order, c.BaseFee, c.FeePPM) && !c11Archived(c.Order.State) && c.Order.MinUnits > 0 {
+		v, _ := c11Reserved(c.Order.real(1), fs, c.Ver)
+		sum += v
+	}
+	seen := map[string]bool{}
+	for _, o := range p.Env.Orders {
+		if seen[o.Nonce] || o.AcctKey != want {
+			continue
+		}
+		seen[o.Nonce] = true
+		t := c11Order{IsBid: !o.IsAsk, Auction: o.AuctionType, Version: 2, Rate: o.Rate, Unfilled: o.UnitsUnfulfilled,
+			Units: o.UnitsUnfulfilled, MinUnits: o.MinUnitsMatch, Dur: o.Duration, Self: o.SelfChanBalance}
+		if t.MinUnits > 0 && c11InDomain(t, c.BaseFee, c.FeePPM) {
+			v, _ := c11Reserved(t.real(2), fs, c.Ver)
+			sum += v
+		}
+	}
+	switch r.Rng.Intn(6) {
+	case 0:
+		c.Value = sum
+	case 1:
+		c.Value = sum - 1
+	case 2:
+		c.Value = sum + int64(r.Rng.Intn(1000))
+	case 3:
+		c.Value = sum - 1 - int64(r.Rng.Intn(1000))
+	case 4:
+		c.Value = r.Rng.Int63n(sum + 1)
+	default:
+		c.Value = sum + r.Rng.Int63n(1_000_000_000)
+	}
+	if c.Value < 0 {
+		c.Value = 0
+	}
+	return c
+}
+
+// c11RunValidatePending: the stores hold the orders/accounts of an honest batch proposal; the new order is validated
+// once before and once after the real OrderMatchValidate accepted the proposal (the manager then has a pending
+// batch; nothing is written to accounts or orders before BatchFinalize). Oracle: accepted only if the balance
+// covers the reserved values of all of the account's stored active orders incl. the new one – matched in the pending
+// batch or not – and the verdict does not depend on the pending batch.
+func c11RunValidatePending(r *Run, c c11Case) {
+	p := c.Pending
+	if p == nil || len(p.Env.Accounts) == 0 {
+		return
+	}
+	sess, st, err := c11PendingSession(p)
+	if err != nil {
+		r.Count("valp/install-failed")
+		return
+	}
+	mgr := sess.mgr
+	defer mgr.Stop()
+	o := c.Order
+	ai := o.Acct % len(p.Env.Accounts)
+	acctKey, err := bParseKey(p.Env.Accounts[ai].Key)
+	if err != nil {
+		return
+	}
+	acct := &account.Account{
+		Value: btcutil.Amount(c.Value), Version: account.Version(c.Ver),
+		TraderKey: &keychain.KeyDescriptor{PubKey: acctKey}, State: account.StateOpen,
+	}
+	tm := &terms.AuctioneerTerms{
+		OrderExecBaseFee: btcutil.Amount(c.BaseFee), OrderExecFeeRate: btcutil.Amount(c.FeePPM),
+		LeaseDurationBuckets: map[uint32]auctioneerrpc.DurationBucketState{},
+	}
+	for _, b := range c.Buckets {
+		tm.LeaseDurationBuckets[b] = auctioneerrpc.DurationBucketState_MARKET_OPEN
+	}
+	validate := func() (res string) {
+		if pm := c11Safe(func() {
+			res = c11ErrEnum(order.VerifC11ValidateOrder(mgr.(order.Manager), o.real(1), acct, tm), false)
+		}); pm != "" {
+			return "panic"
+		}
+		return res
+	}
+	before := validate()
+
+	// the real OrderMatchValidate (real batchVerifier.Verify) must accept the proposal
+	var batch *order.Batch
+	var verr error
+	if pm := c11Safe(func() {
+		batch, verr = order.ParseRPCBatch(p.prepareMsg())
+		if verr == nil {
+			verr = mgr.OrderMatchValidate(batch, p.Best)
+		}
+	}); pm != "" || verr != nil || !mgr.HasPendingBatch() {
+		r.Count("valp/batch-not-accepted")
+		if verr != nil {
+			r.Count("valp/batch-not-accepted/" + strings.SplitN(bClassify(verr), ":", 2)[0])
+		}
+		return
+	}
+	got := validate()
+	r.Evaluations++
+	r.Count("valp/" + strings.SplitN(got, ":", 2)[0])
+
+	// stored orders in store order, described by their terms; the oracle uses the real objects
+	acctIdx := map[[33]byte]int{}
+	for a := range p.Env.Accounts {
+		acctIdx[bHex33(p.Env.Accounts[a].Key)] = a
+	}
+	stored, _ := st.GetOrders()
+	fs := terms.NewLinearFeeSchedule(btcutil.Amount(c.BaseFee), btcutil.Amount(c.FeePPM))
+	toks := []string{fmt.Sprintf("C11 val %d,%d,%d %d,%d,%s", ai, c.Value, c.Ver, c.BaseFee, c.FeePPM, c11Join(c.Buckets))}
+	oTok := o
+	oTok.Acct = ai
+	toks = append(toks, oTok.token())
+	formal := got == "err-duration" || got == "err-fee-floor" || got == "err-self-chan"
+	ood, anyPanic := false, false
+	sum := big.NewInt(0)
+	nMatched := 0
+	add := func(t c11Order, real order.Order) {
+		if c11Archived(t.State) {
+			return
+		}
+		if t.MinUnits == 0 {
+			anyPanic = true
+			return
+		}
+		if !c11InDomain(t, c.BaseFee, c.FeePPM) {
+			ood = true
+			return
+		}
+		v, _ := c11Reserved(real, fs, c.Ver)
+		sum.Add(sum, big.NewInt(v))
+	}
+	add(oTok, o.real(1))
+	for _, so := range stored {
+		idx, ok := acctIdx[so.Details().AcctKey]
+		if !ok {
+			idx = 9
+		}
+		t := c11FromStored(so, idx)
+		if t.Amt < 0 || t.Self < 0 || t.MaxFee < 0 {
+			// terms the model's line format (non-negative decimals) cannot carry: outside the domain anyway
+			r.Count("valp/skip-negative-terms")
+			return
+		}
+		toks = append(toks, t.token())
+		if idx != ai {
+			continue
+		}
+		add(t, so)
+		if _, m := batch.MatchedOrders[so.Nonce()]; m && !c11Archived(t.State) {
+			nMatched++
+		}
+	}
+	if c.Value >= 1<<62 || sum.BitLen() > 62 {
+		ood = true
+	}
+	exp := got
+	if !formal && ood {
+		exp = "ood"
+	}
+	r.Emit(strings.Join(toks, " "), exp)
+	if formal || ood || anyPanic {
+		return
+	}
+	r.Count("valp/oracle")
+	if nMatched > 0 {
+		r.Count("valp/account-has-orders-in-pending-batch")
+	}
+	r.Distinct(strings.Join(toks, " "))
+	covered := sum.Cmp(big.NewInt(c.Value)) <= 0
+	switch {
+	case got == "ok" && !covered:
+		r.Count("oracle/violation")
+		r.Violate(fmt.Sprintf("while a batch is pending (%d of the account's orders matched in it, nothing finalized): order "+
+			"accepted although account value %d < reserved %v of the account's active orders incl. the new one",
+			nMatched, c.Value, sum), "C11/accepted-uncovered-pending-batch", c)
+	case got == "err-insufficient" && covered:
+		r.Count("oracle/violation")
+		r.Violate(fmt.Sprintf("while a batch is pending: order rejected although account value %d >= reserved %v",
+			c.Value, sum), "C11/rejected-covered-pending-batch", c)
+	case got != "ok" && got != "err-insufficient":
+		r.Count("oracle/violation")
+		r.Violate("unexpected validateOrder result while a batch is pending: "+got, "C11/validate-unexpected", c)
+	}
+	if got == "ok" {
+		r.Count("valp/accept")
+	} else if got == "err-insufficient" {
+		r.Count("valp/reject-insufficient")
+	}
+	if before != got {
+		r.Count("oracle/violation")
+		r.Violate(fmt.Sprintf("verdict %s before the batch was accepted, %s while it is pending – stored orders and the "+
+			"account only change at BatchFinalize", before, got), "C11/pending-batch-changes-verdict", c)
+	}
+}
+
+
+// c11BeyondGuard probes bids whose premium is far above 2^48 sat (outside the domain of the theorems, inside int64):
+// there the accumulated float rounding can exceed the two-satoshi tolerance. Nothing is reported; the counts document
+// that the premium guard of the theorems is not an artefact.
+func c11BeyondGuard(r *Run, n int) {
+	for i := 0; i < n; i++ {
+		var o c11Order
+		o.IsBid = true
+		o.Version, o.State = 2, 0
+		o.MinUnits = 1000 + uint64(r.Rng.Intn(100000))
+		o.Unfilled = o.MinUnits * uint64(3+2*r.Rng.Intn(3))
+		o.Units, o.Amt = o.Unfilled, int64(o.Unfilled)*100000
+		o.MaxFee = 253
+		o.Rate = uint32(1_000_000_000 + r.Rng.Intn(3_000_000_000))
+		// premium of the whole order between 2^53 and 2^61
+		target := new(big.Int).Lsh(big.NewInt(1), uint(55+r.Rng.Intn(8)))
+		target.Mul(target, big.NewInt(1_000_000_000))
+		target.Quo(target, big.NewInt(o.Amt))
+		target.Quo(target, big.NewInt(int64(o.Rate)))
+		if !target.IsInt64() || target.Int64() < 1 || target.Int64() > math.MaxUint32 {
+			continue
+		}
+		o.Dur = uint32(target.Int64())
+		fs := terms.NewLinearFeeSchedule(0, 0)
+		ours := o.real(1)
+		rv, pnk := c11Reserved(ours, fs, 0)
+		if pnk {
+			continue
+		}
+		one, err := c11Debit(o, ours, fs, 0, []c11Fill{{Units: o.Unfilled, Price: o.Rate, FeeRate: 253}})
+		if err != nil {
+			continue
+		}
+		r.Count("info/beyond-guard")
+		if one > rv+2 {
+			r.Count("info/beyond-guard/single-fill-exceeds-reserve+2")
+			if len(r.Notes) < 3 {
+				r.Notes = append(r.Notes, fmt.Sprintf("beyond premium guard: %s single fill debit %d > reserved %d + 2", o.token(), one, rv))
+			}
+		}
+	}
 }
